@@ -168,12 +168,13 @@ theorem server_sees_each_packet_once (cfg : Cfg) (progs : List (List Writers.Op)
   obtain ⟨hn, -, -, hip, -, hperm⟩ := C12.exactly_once cfg progs hnd sched
   have hiss : ∀ p ∈ sentPkts s.wire, p ∈ s.issued ∧ p ∈ progs.flatMap pktsOf := by
     intro p hp
-    have : p ∈ s.issued := hperm.symm.subset (by simp [hp])
+    have : p ∈ s.issued := hperm.symm.subset
+      (List.mem_append_left _ (List.mem_append_left _ (List.mem_append_left _ hp)))
     exact ⟨this, hip p this⟩
   refine ⟨by rw [hr], hn, hiss, fun hinj => ?_, fun hd p hp => ?_⟩
   · rw [hr]
     show ((sentPkts s.wire).map content).Nodup
-    exact List.Nodup.map_on (fun a ha b hb h => hinj a (hiss a ha).2 b (hiss b hb).2 h) hn
+    exact nodup_map_on content _ (fun a ha b hb h => hinj a (hiss a ha).2 b (hiss b hb).2 h) hn
   · rcases (C12.all_sent_or_dropped_after_disconnect_partial cfg progs hnd sched hd).2.2.2.2.2.1
       p hp with h | h | h
     · left; rw [hr]; exact List.mem_map.mpr ⟨p, h, rfl⟩
@@ -195,7 +196,8 @@ theorem server_decodes_exactly_sent_encrypted {σ : Type} (cp : CipherPair σ) (
       readAllEnc cp.dec s0 z.toZlibOps thr.isSome segs = ((sentPkts s.wire).map content, .eof) := by
   intro s hseg
   rw [readAllEnc_encSends z.toZlibOps cp s0 thr.isSome _ segs hseg]
-  exact server_decodes_exactly_sent cfg progs hnd sched z thr content hok _ (by simp [bytesOf])
+  exact server_decodes_exactly_sent cfg progs hnd sched z thr content hok _
+    (by rw [List.flatten_cons, List.flatten_nil, List.append_nil]; rfl)
 
 /-- Instance: AES/CFB8 as pyCraft sets it up, over EVERY block function `E` and every initial
 register `iv` (pyCraft: `E = aes128 secret`, `iv = secret`).  The cipher text is what
@@ -254,46 +256,47 @@ example : (C12.exProgs.flatMap pktsOf).Nodup := by decide
 example : ∀ p ∈ C12.exProgs.flatMap pktsOf,
     FrameOK Zlib.ident.toZlibOps (some 2) (exContent p) := by decide +kernel
 
-/-- the final state of `C12.exSched`, threshold 2 (packets 1, 3, 4 take the compress branch, 2 does
+/-- the final state of `C12.exSched`, threshold 2 (packets 3 and 4 take the compress branch, 1 and 2 do
 not): the bytes on the wire, and the sends -/
 example :
     bytesOf Zlib.ident.toZlibOps (some 2) (payloadOf exContent)
         (run ⟨300, 50⟩ (init C12.exProgs) C12.exSched).wire =
-      [0x03, 0x02, 0x0e, 0x61,  0x05, 0x04, 0x0e, 0x62, 0x63, 0x64,  0x04, 0x03, 0x10, 0x01, 0x02,
+      [0x03, 0x00, 0x0e, 0x61,  0x05, 0x04, 0x0e, 0x62, 0x63, 0x64,  0x04, 0x03, 0x10, 0x01, 0x02,
        0x02, 0x00, 0x0f] ∧
     sendsOf Zlib.ident.toZlibOps (some 2) (payloadOf exContent)
         (run ⟨300, 50⟩ (init C12.exProgs) C12.exSched).wire =
-      [[0x03], [0x02, 0x0e, 0x61], [0x05], [0x04, 0x0e, 0x62, 0x63, 0x64], [0x04],
+      [[0x03], [0x00, 0x0e, 0x61], [0x05], [0x04, 0x0e, 0x62, 0x63, 0x64], [0x04],
        [0x03, 0x10, 0x01, 0x02], [0x02], [0x00, 0x0f]] := by decide +kernel
 
 /-- … read back under a segmentation that cuts inside length prefixes and bodies -/
 example : readAll Zlib.ident.toZlibOps true
-      [[0x03, 0x02], [0x0e], [], [0x61, 0x05, 0x04, 0x0e, 0x62], [0x63, 0x64, 0x04, 0x03, 0x10, 0x01],
+      [[0x03, 0x00], [0x0e], [], [0x61, 0x05, 0x04, 0x0e, 0x62], [0x63, 0x64, 0x04, 0x03, 0x10, 0x01],
        [0x02, 0x02, 0x00], [0x0f]]
     = ([(0x0e, [0x61]), (0x0e, [0x62, 0x63, 0x64]), (0x10, [0x01, 0x02]), (0x0f, [])], .eof) := by
-  have h := server_decodes_exactly_sent ⟨300, 50⟩ C12.exProgs (by decide) C12.exSched Zlib.ident
+  exact (server_decodes_exactly_sent ⟨300, 50⟩ C12.exProgs (by decide) C12.exSched Zlib.ident
     (some 2) exContent (by decide +kernel)
-    [[0x03, 0x02], [0x0e], [], [0x61, 0x05, 0x04, 0x0e, 0x62], [0x63, 0x64, 0x04, 0x03, 0x10, 0x01],
-     [0x02, 0x02, 0x00], [0x0f]] (by decide +kernel)
-  rw [h]; decide +kernel
+    [[0x03, 0x00], [0x0e], [], [0x61, 0x05, 0x04, 0x0e, 0x62], [0x63, 0x64, 0x04, 0x03, 0x10, 0x01],
+     [0x02, 0x02, 0x00], [0x0f]] (by decide +kernel)).trans (by decide +kernel)
 
-/-- a reachable state with an OPEN frame: after 8 scheduler choices the networking thread has sent
-the length prefix of packet 1 only; the wire bytes are that prefix, the reader delivers nothing and
-raises end-of-stream; three steps later the frame is complete and is delivered -/
+/-- a reachable state with an OPEN frame: after 14 scheduler choices packet 1 has its whole frame
+on the wire and the networking thread (the lock holder) has sent only the length prefix of packet 3;
+the reader delivers packet 1 and raises end-of-stream -/
 example :
-    (run ⟨300, 50⟩ (init C12.exProgs) (C12.exSched.take 11)).wire = [(1, 0)] ∧
+    (run ⟨300, 50⟩ (init C12.exProgs) (C12.exSched.take 14)).wire = [(1, 0), (1, 1), (3, 0)] ∧
+    (run ⟨300, 50⟩ (init C12.exProgs) (C12.exSched.take 14)).owner = some 0 ∧
     bytesOf Zlib.ident.toZlibOps (some 2) (payloadOf exContent)
-      (run ⟨300, 50⟩ (init C12.exProgs) (C12.exSched.take 11)).wire = [0x03] ∧
-    (run ⟨300, 50⟩ (init C12.exProgs) (C12.exSched.take 12)).wire = [(1, 0), (1, 1)] := by
+      (run ⟨300, 50⟩ (init C12.exProgs) (C12.exSched.take 14)).wire = [0x03, 0x00, 0x0e, 0x61, 0x05] := by
   decide +kernel
-example : readAll Zlib.ident.toZlibOps true [[0x03]] = ([], .eof) := by
-  have h := server_decodes_exactly_sent ⟨300, 50⟩ C12.exProgs (by decide) (C12.exSched.take 11)
-    Zlib.ident (some 2) exContent (by decide +kernel) [[0x03]] (by decide +kernel)
-  rw [h]; decide +kernel
+example : readAll Zlib.ident.toZlibOps true [[0x03, 0x00, 0x0e], [0x61, 0x05]]
+    = ([(0x0e, [0x61])], .eof) :=
+  (server_decodes_exactly_sent ⟨300, 50⟩ C12.exProgs (by decide) (C12.exSched.take 14)
+    Zlib.ident (some 2) exContent (by decide +kernel) [[0x03, 0x00, 0x0e], [0x61, 0x05]]
+    (by decide +kernel)).trans (by decide +kernel)
 
 /-- the FIFO hypothesis is satisfiable (thread 2 queues 3 before 4), and `exContent` is injective
 on the packets of the programs -/
 example : [Writers.Op.queued 3, Writers.Op.queued 4].Sublist (progOf C12.exProgs 2) := by decide
+example : 4 ∈ sentPkts (run ⟨300, 50⟩ (init C12.exProgs) C12.exSched).wire := by decide
 example : ∀ p ∈ C12.exProgs.flatMap pktsOf, ∀ q ∈ C12.exProgs.flatMap pktsOf,
     exContent p = exContent q → p = q := by decide +kernel
 
@@ -310,10 +313,9 @@ example :
     readAllEnc (cfb8DecX C18.toyE) [1, 2, 3] Zlib.ident.toZlibOps true [ct.take 5, ct.drop 5]
       = ([(0x0e, [0x61]), (0x0e, [0x62, 0x63, 0x64]), (0x10, [0x01, 0x02]), (0x0f, [])], .eof) := by
   intro ct
-  have h := server_decodes_exactly_sent_cfb8 C18.toyE [1, 2, 3] ⟨300, 50⟩ C12.exProgs (by decide)
+  exact (server_decodes_exactly_sent_cfb8 C18.toyE [1, 2, 3] ⟨300, 50⟩ C12.exProgs (by decide)
     C12.exSched Zlib.ident (some 2) exContent (by decide +kernel) [ct.take 5, ct.drop 5]
-    (by simp)
-  rw [h]; decide +kernel
+    (by simp [ct])).trans (by decide +kernel)
 
 /-- the wrapper hypothesis is satisfiable: the eight sends with a `recv` and a `read` interleaved -/
 example :
